@@ -217,6 +217,12 @@ def _c20_specs(tier, seed):
                     variant=variant, state=state, fix=fix, cleanup=cleanup, resubmit=resubmit, bystanders=bystanders, second=second,
                 )
             )
+    # the order in which glob() enumerates a directory is unspecified: the "previously linked, now cleanup" cases are
+    # run with the enumeration forced ascending and descending (link met before / after the directory it points to)
+    for variant in C20_VARIANTS:
+        for order in ("asc", "desc"):
+            specs.append(dict(case=f"{variant}/linked/fix=True,cleanup=True/resubmit=dry/glob-order={order}", variant=variant, state="linked", fix=True, cleanup=True,
+                              resubmit="dry", bystanders=False, second=True, order=order, link_all=True))
     return specs
 
 
@@ -725,6 +731,9 @@ def _worker_c20b(spec):
             new1.parent.mkdir(exist_ok=True)
         if state == "linked":
             new1.symlink_to(old1)
+            if spec.get("link_all"):
+                for x in xs[1:]:
+                    (jobs / new_rel[x]).symlink_to(jobs / old_rel[x])
         elif state == "dangling":
             new1.symlink_to(jobs / "gone" / "nowhere")
         elif state == "other_plain":
@@ -735,6 +744,11 @@ def _worker_c20b(spec):
         blocked = state.startswith("other")
 
         # --- 4. repair
+        if spec.get("order"):
+            import pathlib
+            _glob = pathlib.Path.glob
+            _rev = spec["order"] == "desc"
+            pathlib.Path.glob = lambda self, pattern, **kw: iter(sorted(_glob(self, pattern, **kw), reverse=_rev))
         before = _snap(jobs)
         status, value = _call(lambda: fix_deprecated(ws, fix, cleanup), 30)
         if status != "ok":
